@@ -1,4 +1,5 @@
 import J5V.Codec.SpellingProofs
+import J5V.Generated.CodecFacts
 /-!
 # C03 — decoding is exact or rejected
 
@@ -134,5 +135,48 @@ example : stripPad (b64Encode [0xfb, 0xff]) = ascii "+/8" := by decide
 /-- an enum whose option's short name starts with the prefix (the class repaired by 7e19d0c) -/
 example : enumOptionByName (ascii "T_") [(ascii "X", 1), (ascii "T_X", 2)] (ascii "T_X") = some 2 := by
   decide
+
+/-! ## source facts
+Obligations over `J5V.Generated.Codec` (regenerated from /repo's current source by extract/codec.go at
+every check run). Maintained by codec-go; they tie the model's case analysis to the switches in
+the Go source. -/
+section SourceFacts
+open J5V.Generated.Codec
+
+/-- E3: no arm of `scalarReflectFromGo` answers a failed parse with a nil error (the defect
+repaired by /repo b7a2948: `"abc"` in an integer field was silently dropped). -/
+theorem C03_src_no_swallowed_parse_error :
+    (scalarArms.all fun a => !a.swallowsError) = true := by decide
+
+/-- the string helpers and `DateFromString` hand their parse error on -/
+theorem C03_src_helpers_return_errors :
+    (helperSwallowsError.all fun p => !p.2) = true := by decide
+
+/-- every `default:` arm of the Go-type switches is an error (wrong JSON type is rejected) -/
+theorem C03_src_default_arms_reject :
+    (scalarArms.all fun a => !a.isDefault || a.defaultReturnsError) = true := by decide
+
+/-- the arms reachable from JSON tokens / query strings (string, json.Number, bool, nil, default) are
+exactly the ones the model's `scalarReflectFromGo` distinguishes -/
+theorem C03_src_token_arms :
+    ((scalarArms.filter fun a => a.goType ∈ ["string", "json.Number", "json.Number(pre)", "bool", "nil", "default"]).map
+        fun a => (a.schema, a.goType)) =
+      [("Field_Bool", "bool"), ("Field_Bool", "nil"), ("Field_Bool", "default"),
+       ("Field_String_", "string"), ("Field_String_", "nil"), ("Field_String_", "default"),
+       ("Field_Key", "string"), ("Field_Key", "nil"), ("Field_Key", "default"),
+       ("Field_Integer", "json.Number(pre)"),
+       ("Field_Integer/INT32", "string"), ("Field_Integer/INT32", "default"),
+       ("Field_Integer/INT64", "string"), ("Field_Integer/INT64", "default"),
+       ("Field_Integer/UINT32", "string"), ("Field_Integer/UINT32", "default"),
+       ("Field_Integer/UINT64", "string"), ("Field_Integer/UINT64", "default"),
+       ("Field_Float", "json.Number"), ("Field_Float", "string"),
+       ("Field_Bytes", "string"), ("Field_Bytes", "default"),
+       ("Field_Timestamp", "string"), ("Field_Timestamp", "default"),
+       ("Field_Decimal", "string"), ("Field_Decimal", "json.Number"), ("Field_Decimal", "default"),
+       ("Field_Date", "string"), ("Field_Date", "default")] := by decide
+
+theorem C03_src_extractor_ok : codecExtractorOk = true := by decide
+
+end SourceFacts
 
 end J5V.Props.C03
